@@ -109,6 +109,26 @@ def fragmented(vm, n, cuts, window, prefix=0):
             return 'ok-skip-unordered'
         points.append(k)
     points.append(total)
+    return deliver(vm, n, stream, body, points)
+
+
+def big_body(vm, n, cuts_in_body):
+    """A large body: the first cut at every position of the header (one path each), then cuts at *symbolic* offsets inside
+    the body, so the read that completes the header carries any number of body bytes."""
+    header = header_for(n)
+    body = vm.new_run('body', n, n, b'x')
+    stream = header + body
+    total = len(header) + n
+    points = [0, vm.pick('cut', len(header)) + 1]
+    for c in range(cuts_in_body):
+        k = vm.new_int('body_cut', 0, n)
+        vm.assume(len(header) + k >= points[-1])
+        points.append(len(header) + k)
+    points.append(total)
+    return deliver(vm, n, stream, body, points)
+
+
+def deliver(vm, n, stream, body, points):
     p = make_client(vm)
     for a, b in zip(points, points[1:]):
         frag = stream[a:b]
@@ -196,6 +216,10 @@ def jobs(tier):
         out.append(dict(name=f'json-like-body-{i}', family='json-like', fn='fragmented', args=(n, 2, (hl - 2, hl + len(PREFIXES[i]) + 2), i),
                         loop_bound=400, max_depth=60, cost=300,
                         bounds=dict(body='%r + filler' % PREFIXES[i], cuts=2, positions='around the header/body boundary and the JSON-like prefix'),
+                        must_reach=('ok',)))
+    for n, k in (((2 ** 21, 1),) if tier == 'quick' else ((2 ** 21, 1), (5000, 2), (2 ** 21, 2))):
+        out.append(dict(name=f'big-body-{n}-{k}cuts', family='fragment', fn='big_body', args=(n, k), loop_bound=400, max_depth=60,
+                        cost=3000 * k, bounds=dict(body_bytes=n, cuts=f'1 at every header position + {k} at symbolic offsets in the body'),
                         must_reach=('ok',)))
     if tier == 'thorough':
         out.append(dict(name='fragmented-2cuts-body20', family='fragment', fn='fragmented', args=(20, 2, None), loop_bound=400, max_depth=60,
